@@ -1,13 +1,17 @@
 package props
 
 import (
+	"bytes"
 	"context"
 	stdjson "encoding/json"
 	"fmt"
 	"math/rand"
 	"reflect"
+	"runtime"
 	"sort"
 	"strings"
+	"sync"
+	"sync/atomic"
 	"unsafe"
 	"verif/harness/zoo"
 
@@ -287,6 +291,125 @@ func c14RecursivePairs(c *rt.Ctx) {
 	}
 }
 
+// c14GCHook is the dynamic value of an interface member: while its MarshalJSON runs the
+// interpreter is inside a nested program and remembers the enclosing one as a return address only.
+// It forces a collection and then takes over whatever was freed in the pointer-carrying size
+// classes an opcode program lives in.
+type c14GCHook struct{}
+
+var c14SizeClasses = []int{64, 80, 96, 112, 128, 144, 160, 176, 192, 208, 224, 240, 256, 288, 320, 352, 384, 416, 448, 480, 512, 576, 640, 704, 768, 896, 1024, 1152, 1280, 1408, 1536, 1792, 2048}
+
+func (h *c14GCHook) MarshalJSON() ([]byte, error) {
+	runtime.GC()
+	keep := make([][]*int, 0, len(c14SizeClasses)*64)
+	for _, size := range c14SizeClasses {
+		for i := 0; i < 64; i++ {
+			keep = append(keep, make([]*int, size/8))
+		}
+	}
+	runtime.KeepAlive(keep)
+	return []byte(`"hook"`), nil
+}
+
+var c14StormSeq int64
+
+// c14Storm: a brand-new run-time type is encoded for the first time by several goroutines at once
+// (each compiles its own program, one is published, the others stay private to their call) while
+// collections run inside the nested program of an interface member. Every call, through every
+// encode entry point, must still process the value with the program of its own type from the first
+// to the last member: the member names identify the type.
+func c14Storm(c *rt.Ctx, sub, rounds int) {
+	const workers = 8
+	if n := runtime.GOMAXPROCS(0); n < workers+1 {
+		defer runtime.GOMAXPROCS(runtime.GOMAXPROCS(workers + 1))
+	}
+	entries := []struct {
+		name string
+		f    func(x any) ([]byte, error)
+	}{
+		{"Marshal", func(x any) ([]byte, error) { return gojson.Marshal(x) }},
+		{"MarshalIndent", func(x any) ([]byte, error) { return gojson.MarshalIndent(x, "", "  ") }},
+		{"MarshalNoEscape", func(x any) ([]byte, error) { return gojson.MarshalNoEscape(x) }},
+		{"MarshalContext", func(x any) ([]byte, error) { return gojson.MarshalContext(context.Background(), x) }},
+		{"Encoder.SetIndent", func(x any) ([]byte, error) {
+			var w bytes.Buffer
+			enc := gojson.NewEncoder(&w)
+			enc.SetIndent("", "\t")
+			err := enc.Encode(x)
+			return w.Bytes(), err
+		}},
+		{"MarshalIndentWithOption", func(x any) ([]byte, error) {
+			return gojson.MarshalIndentWithOption(x, "", " ", gojson.DisableHTMLEscape())
+		}},
+		{"Encoder", func(x any) ([]byte, error) {
+			var w bytes.Buffer
+			err := gojson.NewEncoder(&w).Encode(x)
+			return w.Bytes(), err
+		}},
+	}
+	for r := 0; r < rounds; r++ {
+		id := atomic.AddInt64(&c14StormSeq, 1)*100000 + int64(c.Idx)
+		e := entries[r%len(entries)]
+		if !c.Cur(sub, fmt.Sprintf("shapes=core\nfirst-use storm round %d: %s", r, e.name)) {
+			return
+		}
+		typ := reflect.StructOf([]reflect.StructField{
+			{Name: fmt.Sprintf("A%d", id), Type: reflect.TypeOf((*interface{})(nil)).Elem()},
+			{Name: fmt.Sprintf("B%d", id), Type: reflect.TypeOf("")},
+			{Name: fmt.Sprintf("C%d", id), Type: reflect.TypeOf(0)},
+		})
+		rv := reflect.New(typ).Elem()
+		rv.Field(0).Set(reflect.ValueOf(&c14GCHook{}))
+		rv.Field(1).SetString("b")
+		rv.Field(2).SetInt(id)
+		v := rv.Interface()
+		if r%2 == 1 {
+			v = rv.Addr().Interface()
+		}
+		want := fmt.Sprintf(`{"A%d":"hook","B%d":"b","C%d":%d}`, id, id, id, id)
+		var ready, start int32
+		var wg sync.WaitGroup
+		var mu sync.Mutex
+		var bad []string
+		for w := 0; w < workers; w++ {
+			wg.Add(1)
+			go func() {
+				defer wg.Done()
+				atomic.AddInt32(&ready, 1)
+				for atomic.LoadInt32(&start) == 0 {
+					runtime.Gosched()
+				}
+				var got []byte
+				var err error
+				pan, msg, _ := rt.Guard(func() { got, err = e.f(v) })
+				var cb bytes.Buffer
+				if !pan && err == nil {
+					if cerr := stdjson.Compact(&cb, got); cerr != nil {
+						err = fmt.Errorf("output is not JSON: %v", cerr)
+					}
+				}
+				if pan || err != nil || cb.String() != want {
+					mu.Lock()
+					bad = append(bad, fmt.Sprintf("panic=%v %s err=%v got=%s", pan, msg, err, rt.Q(got)))
+					mu.Unlock()
+				}
+			}()
+		}
+		for atomic.LoadInt32(&ready) != int32(workers) {
+			runtime.Gosched()
+		}
+		atomic.StoreInt32(&start, 1)
+		wg.Wait()
+		c.Eval(workers)
+		c.Obs("first_use_storm_encodings", workers)
+		if len(bad) > 0 {
+			c.Violate(rt.Violation{Monitor: "self-ident", Entry: "first-use-storm", Kind: "not-encoded-by-own-program", Ctx: e.name,
+				Detail: fmt.Sprintf("%d of %d concurrent first encodings of %v went wrong; want %s; first: %s", len(bad), workers, typ, want, bad[0]), Sub: sub})
+		}
+	}
+	c.NonTrivial("storm", fmt.Sprint(rounds))
+}
+
 func c14Drain(c *rt.Ctx, sub int) {
 	es, er := gojson.VerifEncCacheTake()
 	ds, dr := gojson.VerifDecCacheTake()
@@ -333,6 +456,11 @@ func init() {
 				// first in its (fresh) worker process
 				c14RecursivePairs(c)
 				c14HeapWindow(c)
+				rounds := 28
+				if c.Tier == "thorough" {
+					rounds = 140
+				}
+				c14Storm(c, 9, rounds)
 				return
 			}
 			c.Idx--
